@@ -22,6 +22,8 @@ type KnownFinding struct {
 	Commit   string            `json:"commit,omitempty"`
 	Witness  map[string]string `json:"witness,omitempty"`
 	Harness  string            `json:"harness,omitempty"`
+	Pkg      string            `json:"pkg,omitempty"`
+	Params   []int             `json:"params,omitempty"`
 }
 
 func loadKnownFindings() map[string]KnownFinding {
@@ -132,18 +134,41 @@ func (ctx *checkCtx) runJobs(jobs []Job) {
 	defer os.RemoveAll(tmp)
 	shards := make([][]Job, nShards)
 	index := make([][]int, nShards)
-	// heavy jobs first, dealt round-robin
-	for i, j := range jobs {
-		k := i % nShards
-		shards[k] = append(shards[k], j)
+	// longest-processing-time-first assignment with a crude cost estimate
+	cost := func(j Job) int {
+		switch {
+		case len(j.ForkIn) > 0 || len(j.ForkFuncs) > 0:
+			return 400
+		case strings.HasPrefix(j.Harness, "H_API"):
+			return 25
+		case j.Timeout >= 300:
+			return 100
+		}
+		return 3
+	}
+	order := make([]int, len(jobs))
+	for i := range order {
+		order[i] = i
+	}
+	sort.SliceStable(order, func(a, b int) bool { return cost(jobs[order[a]]) > cost(jobs[order[b]]) })
+	load := make([]int, nShards)
+	for _, i := range order {
+		k := 0
+		for x := 1; x < nShards; x++ {
+			if load[x] < load[k] {
+				k = x
+			}
+		}
+		load[k] += cost(jobs[i])
+		shards[k] = append(shards[k], jobs[i])
 		index[k] = append(index[k], i)
 	}
 	results := make([]*JobResult, len(jobs))
 	var wg sync.WaitGroup
 	self, _ := os.Executable()
-	per := 16 / nShards
-	if per < 2 {
-		per = 2
+	per := 24 / nShards
+	if per < 3 {
+		per = 3
 	}
 	for k := range shards {
 		wg.Add(1)
@@ -282,6 +307,23 @@ func (ctx *checkCtx) run(jobs []Job) int {
 			if !reach[l] {
 				ctx.incon = append(ctx.incon, fmt.Sprintf("%s: cover %s unreachable on every path (vacuous)", jr.Job.key(), l))
 			}
+		}
+	}
+	// listed known findings: replay the stored witness natively; it is reported while it still fails
+	for _, kf := range known {
+		if kf.Property != ctx.prop || kf.Status != "known" || kf.Witness == nil || kf.Harness == "" || kf.Pkg == "" {
+			continue
+		}
+		rc := ReplayCase{Harness: kf.Harness, Params: kf.Params, Inputs: kf.Witness, Pkg: kf.Pkg, Label: kf.ID, Kind: "known", Prop: ctx.prop}
+		outs, err := nativeReplay(kf.Pkg, nil, []ReplayCase{rc}, 60)
+		if err != nil {
+			ctx.incon = append(ctx.incon, "known-finding witness replay failed: "+err.Error())
+			continue
+		}
+		ctx.replays++
+		if contains(outs[0].AssertFails, "KNOWN:"+kf.ID) || outs[0].Hang || outs[0].Panic != "" {
+			ctx.replayOK++
+			ctx.knownLines = append(ctx.knownLines, fmt.Sprintf("KNOWN-FINDING: property=%s %s: %s", ctx.prop, kf.ID, kf.What))
 		}
 	}
 	// native replays, grouped by package+consts
